@@ -6,7 +6,7 @@ set -u
 PATCH=$(readlink -f "$1"); DEMO="$2"; shift 2
 W=$(mktemp -d /tmp/seedrun.XXXXXX)
 trap 'rm -rf "$W"' EXIT
-rsync -a --exclude .git --exclude docs /repo/ "$W/"
+rsync -a --exclude .git --exclude site /repo/ "$W/"
 ( cd "$W" && patch -s -p1 < "$PATCH" ) || { echo "PATCH-FAILED"; exit 3; }
 if [ "${SKIP_SUITE:-0}" != 1 ]; then
   ( cd "$W" && PYTHONPATH="$W/src" /venv/bin/python -m pytest -q -p no:cacheprovider -x \
